@@ -69,6 +69,12 @@ fn child_poll(id: u32, addr: usize, cx: &mut Context<'_>, stream: bool) -> (Stri
             }
         }
     }
+    if step.resp == "!" {
+        // the child panics inside its poll
+        ev(format!(r#"{{"e":"cpanic","c":{}}}"#, id));
+        gate::sync_cb("child.exit");
+        panic!("scripted panic in poll of child {}", id);
+    }
     let k = if step.resp == "I" {
         with(|w| {
             let e = w.items_done.entry(id).or_insert(0);
@@ -94,6 +100,11 @@ fn log_cdrop(id: u32, addr: usize) {
         w.addr_id(addr)
     });
     ev(format!(r#"{{"e":"cdrop","c":{},"addr":{}}}"#, id, a));
+    // a destructor that panics (once, and never while already unwinding)
+    if !std::thread::panicking() && with(|w| w.drop_panic.remove(&id)) {
+        ev(format!(r#"{{"e":"dpanic","c":{}}}"#, id));
+        panic!("scripted panic in drop of child {}", id);
+    }
 }
 
 macro_rules! addr_of_self {
@@ -340,6 +351,7 @@ impl<T: FromUp> Stream for SUp<T> {
     type Item = T;
     fn poll_next(self: Pin<&mut Self>, cx: &mut Context<'_>) -> Poll<Option<T>> {
         let _s = Suspend::new();
+        let _o = OutCrate::new();
         gate::sync_cb("up.enter");
         let draining = with(|w| w.draining);
         let step = {
